@@ -79,15 +79,36 @@ def interveneWith (o : Var) (newIv : Iv) : Except Err Var :=
     if overlapping is then .error (.invalidInput "ValueError") else .ok { o with ivs := is }
   else .ok { name := o.name, star := o.star, ivs := [newIv] }
 
-/-- the dict comprehension that rewrites the outcomes when rule 2 applies to `cond` (whose value is `val`) -/
+/-- one step of the loop that rewrites the outcomes: the (possibly re-subscripted) key and the value of the outcome `p` -/
+def exchangeKey (cf : MG Var) (cond : Var) (val : Iv) (p : Var × Iv) : Except Err (Var × Iv) := do
+  let anc ← cf.ancestorsInclusive [p.1]
+  if elem' cond anc then
+    let k ← interveneWith p.1 val
+    pure (k, p.2)
+  else pure p
+
+/-- the dict that the rewriting of the outcomes produces when no two outcomes collide with different values (what the code did as a
+dict comprehension before the fix; `exchangeStep_some`, Lemmas/CfIdcCollapse.lean: whenever `exchangeStep` returns `some e`, this
+is `e`); kept because the lemmas about the exchanged outcomes are stated for it -/
 def exchangeOutcomes (cf : MG Var) (outcomes : Event) (cond : Var) (val : Iv) : Except Err Event := do
-  let ps ← outcomes.mapM fun (p : Var × Iv) => do
-    let anc ← cf.ancestorsInclusive [p.1]
-    if elem' cond anc then
-      let k ← interveneWith p.1 val
-      pure (k, p.2)
-    else pure p
+  let ps ← outcomes.mapM (exchangeKey cf cond val)
   pure (Event.ofList ps)
+
+/-- the loop that rewrites the outcomes when rule 2 applies to `cond` (since `fix:` "IDC* returns Zero when the exchange makes two
+outcomes the same variable with different values"; before, a dict comprehension: the later conjunct silently overwrote the
+earlier one -- `exchangeOutcomes`).  `none`: an outcome was re-subscripted to (or already was) a key that is there with a
+DIFFERENT value: the event is inconsistent, IDC* answers Zero.  Errors of `intervene` surface in loop order. -/
+def exchangeLoop (cf : MG Var) (cond : Var) (val : Iv) : List (Var × Iv) → Event → Except Err (Option Event)
+  | [], acc => .ok (some acc)
+  | p :: ps, acc => do
+    let q ← exchangeKey cf cond val p
+    match acc.get? q.1 with
+    | some v => if v = q.2 then exchangeLoop cf cond val ps (acc.set q.1 q.2) else pure none
+    | none => exchangeLoop cf cond val ps (acc.set q.1 q.2)
+
+/-- `exchanged_outcomes` of line 4: `some` dict, or `none` (inconsistent: Zero) -/
+def exchangeStep (cf : MG Var) (outcomes : Event) (cond : Var) (val : Iv) : Except Err (Option Event) :=
+  exchangeLoop cf cond val outcomes []
 
 /-! ### `Expression.conditional` (dsl.py:702-718, 864-878) -/
 
@@ -165,8 +186,9 @@ def idcStarFuel (ordf : List World → List World) (dordf kordf : List Var → L
         match nc.get? c with
         | none => throw (.internal "KeyError")
         | some val =>
-          let no' ← exchangeOutcomes cf no c val
-          idcStarFuel ordf dordf kordf G fuel no' (nc.filter (fun p => p.1 ≠ c))
+          match ← exchangeStep cf no c val with
+          | none => pure .zero     -- (`fix:` two outcomes became one variable with two values: inconsistent)
+          | some no' => idcStarFuel ordf dordf kordf G fuel no' (nc.filter (fun p => p.1 ≠ c))
       | none =>
         -- line 5
         let est ← idStar ordf dordf G (Event.ofList (no ++ nc))
@@ -211,8 +233,9 @@ def idcStarTrace (ordf : List World → List World) (dordf kordf : List Var → 
           match nc.get? c with
           | none => ([here], true)
           | some val =>
-            match exchangeOutcomes cf no c val with
-            | .ok no' =>
+            match exchangeStep cf no c val with
+            | .ok none => ([here], true)
+            | .ok (some no') =>
               -- shared keys that the exchange re-subscripted (they stay as conditions under their old key)
               let split := shared.filter (fun k => !no'.has k)
               let r := idcStarTrace ordf dordf kordf G fuel no' (nc.filter (fun p => p.1 ≠ c))
